@@ -182,13 +182,22 @@ def judge_one(m, r):
             probs.append(("size-stale", "the last WindowSizeMsg Update received is %s, the terminal's true size is %s (sizes over time: %s, mode %s)" % (ws[-1:] or None, sizes[-1], sizes, m["mode"])))
         if any(s not in sizes for s in ws):
             probs.append(("size-invented", "a WindowSizeMsg carried a size the terminal never had: %s vs %s" % (ws, sizes)))
-        if m["mode"] in ("idle", "command"):
-            # spaced resizes: each one is reported, in order
-            it = iter(ws)
-            if not all(any(x == s for x in it) for s in sizes):
-                probs.append(("size-missed", "resizes %s were reported as %s" % (sizes, ws)))
-        if m["mode"] == "command" and len(ws) < len(sizes) + 1:
-            probs.append(("size-command", "the WindowSize command produced no WindowSizeMsg: %s" % ws))
+        # the reports walk through the history of true sizes in order (a size is read some time after its signal: a
+        # later size may already be in force by then, an earlier one never comes back) - no timing is assumed
+        j = 0
+        for x in ws:
+            nxt = next((k for k in range(j, len(sizes)) if sizes[k] == x), None)
+            if nxt is None:
+                if x in sizes:
+                    probs.append(("size-order", "sizes over time %s were reported as %s: %s was reported after a later size" % (sizes, ws, x)))
+                break
+            j = nxt
+        if m["mode"] == "command":
+            # the command itself reaches Update (key b:windowsize); its answer is a WindowSizeMsg after that
+            at = next((i for i, k in enumerate(keys) if k == "b:windowsize"), None)
+            after = [k for k in keys[at + 1:] if k.startswith("ws:")] if at is not None else []
+            if at is None or not after or after[-1] != "ws:%dx%d" % sizes[-1]:
+                probs.append(("size-command", "the WindowSize command produced no WindowSizeMsg with the true size: Update saw %s" % keys[-6:]))
         # the renderer clips to the most recently reported size: the repaint after the last size message
         last = [e for e in r["events"] if e["ev"] == "UpdateBegin" and e.get("key", "").startswith("ws:")]
         u7 = next((e for e in r["events"] if e["ev"] == "UpdateBegin" and e.get("key") == "u:7"), None)
